@@ -118,3 +118,32 @@ Proof.
   split; [vm_compute; reflexivity|]. split; [vm_compute; reflexivity|].
   split; [vm_compute; reflexivity|]. split; vm_compute; reflexivity.
 Qed.
+
+(* ---- the exact-distance form holds where c07_pre fails, and its guard is met ---- *)
+Lemma c07_dist_nonvacuous :
+  exists w cfg ops,
+    vconfig_ok cfg = true /\ 0 <= vc_remote_seq cfg < M16 /\ Forall op_msg_ok ops /\
+    forallb (c07_pre_monitor cfg) (wtrace w cfg ops) = false /\
+    forallb (c07_dist_ok cfg) (wtrace w cfg ops) = true /\
+    forallb (c07_pre_monitor_g cfg) (wtrace w cfg ops) = true /\
+    existsb (fun st => c07_live st && (0 <? f_cbu (fs_post st)) && (f_cbu (fs_post st) <? M16))
+            (wtrace w cfg ops) = true.
+Proof.
+  exists 1048576, c07_wrap_cfg, c07_wrap_ops.
+  split; [vm_compute; reflexivity|]. split; [vm_compute; split; [discriminate | reflexivity]|].
+  split; [unfold c07_wrap_ops; apply Forall_app; split; [apply c07_delivers_ok | repeat constructor]|].
+  split; [vm_compute; reflexivity|]. split; [vm_compute; reflexivity|].
+  split; vm_compute; reflexivity.
+Qed.
+
+Lemma c07_pre_monitor_g_nonvacuous :
+  exists w cfg ops,
+    vconfig_ok cfg = true /\ 0 <= vc_remote_seq cfg < M16 /\ Forall op_msg_ok ops /\
+    forallb (c07_pre_monitor_g cfg) (wtrace w cfg ops) = true /\
+    existsb (fun st => c07_poll_done st && (0 <? f_cbu (fs_post st)) && (f_cbu (fs_post st) <=? WRAP_TOLERANCE))
+            (wtrace w cfg ops) = true.
+Proof.
+  exists 1000, c07_cfg1, c07_trig_ops.
+  split; [vm_compute; reflexivity|]. split; [vm_compute; split; [discriminate | reflexivity]|].
+  split; [exact c07_trig_ops_ok|]. split; vm_compute; reflexivity.
+Qed.
